@@ -44,7 +44,7 @@ def positions(rng, n, count):
 def run(run):
     rng = run.rng
     run.do_ties()
-    quick = run.tier == "quick"
+    quick = run.quick
     nmax = 5 if quick else 8
     impl0, _ = core.both(run, ["consts"], "runtime-constants")
     bi = [fx(t) for t in impl0[0].split(" | ")[1].split()[4:8]]     # basis_inverse m00 m01 m10 m11
